@@ -328,3 +328,7 @@ def run(db, ctx):
     from . import C07
     common.shared_rule(db, ctx, C07.block_maximum, 'R8.5', 'the block maximum that gates the 8-bit pre-filter is an upper bound of every cell of the block '
                        '(AVX2 max kernel: identity, row range, lane coverage, final reduction; generic: argmax scan over all cells) — shared with R7.1 / R7.4', ['R7.1', 'R7.4'])
+    # "every position has a byte score": the 8-bit wrappers return an empty block only when there is no position at all (seed C08-8: `<=`)
+    from . import C01
+    common.shared_rule(db, ctx, C01.r13, 'R8.6', 'every score_rows_into wrapper resizes the output to (rows.len(), L + 1 - M) and returns early only when L < M or no row is asked for '
+                       '(shared with R1.3)', ['R1.3'])
